@@ -1,10 +1,10 @@
-\* thorough export: all three retryable statuses, two repetitions, every status after a repetition
+\* thorough export: all three retryable statuses, two repetitions
 CONSTANTS
   Statuses = {200, 204, 301, 400, 404, 429, 500}
   RetryStatuses = {408, 429, 503}
-  RetryBodies = {"valid", "notJSON"}
-  UndecodableBodies = {"wrongType", "empty", "notJSON", "truncatedJSON", "badBase64"}
-  AfterRetryStatuses = {200, 204, 301, 400, 404, 500}
+  RetryBodies = {"valid"}
+  UndecodableBodies = {"wrongType"}
+  AfterRetryStatuses = {200, 400}
   MaxAnswers = 3
   MaxCalls = 1
   CarryLayers = {"http", "json", "signed"}
